@@ -95,26 +95,87 @@ func frameStr(f h2.Frame) (s string, stop bool) {
 	return "E:unknown-go-type", true
 }
 
-func readAll(max uint32, buf []byte) string {
-	fr := h2.NewFramer(nil, bytes.NewReader(buf))
+func readAll(max uint32, buf []byte) string { return readLoop(max, bytes.NewReader(buf), len(buf), false) }
+
+// readLoop calls ReadFrame until a terminal error (cont=false, as the serve loop does) or until an
+// i/o error (cont=true: ReadFrame is called again after every other error).
+func readLoop(max uint32, r io.Reader, n int, cont bool) string {
+	fr := h2.NewFramer(nil, r)
 	fr.SetMaxReadFrameSize(max)
 	var out []string
-	for i := 0; i <= len(buf); i++ {
+	for i := 0; i <= n+1; i++ {
 		f, err := fr.ReadFrame()
 		if err != nil {
 			out = append(out, errStr(err))
 			if _, ok := err.(h2.StreamError); ok {
 				continue // not terminal (terminalReadFrameError): the server resets the stream and reads on
 			}
+			if cont && err != io.EOF && err != io.ErrUnexpectedEOF {
+				continue
+			}
 			break
 		}
 		s, stop := frameStr(f)
+		if cont {
+			s, _ = frameStrNoValid(f), false
+			stop = false
+		}
 		out = append(out, s)
 		if stop {
 			break
 		}
 	}
 	return strings.Join(out, "|")
+}
+
+func frameStrNoValid(f h2.Frame) string { s, _ := frameStr(f); return s }
+
+// segReader is a scripted io.Reader: one Read delivers at most the rest of the current chunk; an
+// empty chunk is an empty read (0, nil); with eofWithData the last data comes together with io.EOF.
+type segReader struct {
+	chunks      [][]byte
+	eofWithData bool
+}
+
+func (s *segReader) Read(p []byte) (int, error) {
+	if len(s.chunks) == 0 {
+		return 0, io.EOF
+	}
+	c := s.chunks[0]
+	if len(c) <= len(p) {
+		n := copy(p, c)
+		s.chunks = s.chunks[1:]
+		if len(s.chunks) == 0 && s.eofWithData {
+			return n, io.EOF
+		}
+		return n, nil
+	}
+	n := copy(p, c[:len(p)])
+	s.chunks[0] = c[len(p):]
+	return n, nil
+}
+
+func cutInto(sizes []int, buf []byte) [][]byte {
+	sum := 0
+	for _, x := range sizes {
+		sum += x
+	}
+	var out [][]byte
+	if sum == 0 {
+		if len(buf) > 0 {
+			out = append(out, buf)
+		}
+		return out
+	}
+	for i := 0; len(buf) > 0; i++ {
+		n := sizes[i%len(sizes)]
+		if n > len(buf) {
+			n = len(buf)
+		}
+		out = append(out, buf[:n])
+		buf = buf[n:]
+	}
+	return out
 }
 
 // ---------- writer specs ----------
@@ -143,11 +204,39 @@ func werr(err error) string {
 	case "illegal window increment value":
 		return "werr:win"
 	}
+	if err == io.ErrShortWrite {
+		return "werr:other" // classified by the caller, which knows the sink mode
+	}
 	return "werr:other"
 }
 
 // applyW runs one writer spec on fr; ok=false for a malformed spec.
 func applyW(fr *h2.Framer, spec string) (status string, ok bool) {
+	status, ok, ins, copies := applyW0(fr, spec)
+	for i := range ins {
+		if !bytes.Equal(ins[i], copies[i]) {
+			return "werr:mutated-input", ok
+		}
+	}
+	return status, ok
+}
+
+// keep registers a caller-owned slice handed to a writer (aliasing check: it must not be modified).
+var kept, keptCopies [][]byte
+
+func keep(b []byte) []byte {
+	kept = append(kept, b)
+	keptCopies = append(keptCopies, append([]byte(nil), b...))
+	return b
+}
+
+func applyW0(fr *h2.Framer, spec string) (status string, ok bool, ins, copies [][]byte) {
+	kept, keptCopies = nil, nil
+	status, ok = applyW1(fr, spec)
+	return status, ok, kept, keptCopies
+}
+
+func applyW1(fr *h2.Framer, spec string) (status string, ok bool) {
 	f := strings.Split(spec, ",")
 	bad := func() (string, bool) { return "", false }
 	switch {
@@ -166,7 +255,7 @@ func applyW(fr *h2.Framer, spec string) (status string, ok bool) {
 		if !(o1 && o2 && o3 && o4) {
 			return bad()
 		}
-		return werr(fr.WriteDataPadded(uint32(sid), es, d, pad)), true
+		return werr(fr.WriteDataPadded(uint32(sid), es, keep(d), keep(pad))), true
 	case f[0] == "H" && len(f) == 9:
 		sid, o1 := u(f[1], 32)
 		es, o2 := pb(f[2])
@@ -179,7 +268,7 @@ func applyW(fr *h2.Framer, spec string) (status string, ok bool) {
 		if !(o1 && o2 && o3 && o4 && o5 && o6 && o7 && o8) {
 			return bad()
 		}
-		return werr(fr.WriteHeaders(h2.HeadersFrameParam{StreamID: uint32(sid), BlockFragment: frag, EndStream: es, EndHeaders: eh,
+		return werr(fr.WriteHeaders(h2.HeadersFrameParam{StreamID: uint32(sid), BlockFragment: keep(frag), EndStream: es, EndHeaders: eh,
 			PadLength: uint8(pl), Priority: h2.PriorityParam{StreamDep: uint32(dep), Exclusive: ex, Weight: uint8(w)}})), true
 	case f[0] == "P" && len(f) == 5:
 		sid, o1 := u(f[1], 32)
@@ -225,7 +314,7 @@ func applyW(fr *h2.Framer, spec string) (status string, ok bool) {
 		if !(o1 && o2 && o3 && o4 && o5) {
 			return bad()
 		}
-		return werr(fr.WritePushPromise(h2.PushPromiseParam{StreamID: uint32(sid), PromiseID: uint32(pr), BlockFragment: frag,
+		return werr(fr.WritePushPromise(h2.PushPromiseParam{StreamID: uint32(sid), PromiseID: uint32(pr), BlockFragment: keep(frag),
 			EndHeaders: eh, PadLength: uint8(pl)})), true
 	case f[0] == "I" && len(f) == 3:
 		ack, o1 := pb(f[1])
@@ -243,7 +332,7 @@ func applyW(fr *h2.Framer, spec string) (status string, ok bool) {
 		if !(o1 && o2 && o3) {
 			return bad()
 		}
-		return werr(fr.WriteGoAway(uint32(l), h2.ErrCode(c), d)), true
+		return werr(fr.WriteGoAway(uint32(l), h2.ErrCode(c), keep(d))), true
 	case f[0] == "W" && len(f) == 3:
 		sid, o1 := u(f[1], 32)
 		inc, o2 := u(f[2], 32)
@@ -258,7 +347,7 @@ func applyW(fr *h2.Framer, spec string) (status string, ok bool) {
 		if !(o1 && o2 && o3) {
 			return bad()
 		}
-		return werr(fr.WriteContinuation(uint32(sid), eh, frag)), true
+		return werr(fr.WriteContinuation(uint32(sid), eh, keep(frag))), true
 	case f[0] == "X" && len(f) == 5:
 		t, o1 := u(f[1], 8)
 		fl, o2 := u(f[2], 8)
@@ -267,23 +356,77 @@ func applyW(fr *h2.Framer, spec string) (status string, ok bool) {
 		if !(o1 && o2 && o3 && o4) {
 			return bad()
 		}
-		return werr(fr.WriteRawFrame(h2.FrameType(t), h2.Flags(fl), uint32(sid), p)), true
+		return werr(fr.WriteRawFrame(h2.FrameType(t), h2.Flags(fl), uint32(sid), keep(p))), true
 	}
 	return bad()
 }
 
+// sink is the io.Writer under the Framer: it records every Write call; mode g = good, s = short write
+// (n-1, nil), z = (0, nil), e = error.
+type sink struct {
+	buf    bytes.Buffer
+	mode   byte
+	calls  int
+	lastN  int
+	keep9  []byte
+	total  int
+	noKeep bool
+}
+
+var errSink = fmt.Errorf("sink error")
+
+func (k *sink) Write(p []byte) (int, error) {
+	k.calls++
+	k.lastN = len(p)
+	switch k.mode {
+	case 's':
+		return len(p) - 1, nil
+	case 'z':
+		return 0, nil
+	case 'e':
+		return 0, errSink
+	}
+	k.total += len(p)
+	if k.noKeep {
+		if k.keep9 == nil && len(p) >= 9 {
+			k.keep9 = append([]byte(nil), p[:9]...)
+		}
+		return len(p), nil
+	}
+	return k.buf.Write(p)
+}
+
 func writeAll(allow bool, specs []string) (stats []string, buf []byte, ok bool) {
-	var w bytes.Buffer
-	fr := h2.NewFramer(&w, nil)
+	return writeAllModes(allow, specs, "")
+}
+
+func writeAllModes(allow bool, specs []string, modes string) (stats []string, buf []byte, ok bool) {
+	w := &sink{mode: 'g'}
+	fr := h2.NewFramer(w, nil)
 	fr.AllowIllegalWrites = allow
-	for _, s := range specs {
+	for i, s := range specs {
+		if modes != "" {
+			w.mode = modes[i]
+		}
+		w.calls = 0
+		before := w.buf.Len()
 		st, o := applyW(fr, s)
 		if !o {
 			return nil, nil, false
 		}
+		switch {
+		case st == "ok" && (w.calls != 1 || w.buf.Len()-before != w.lastN):
+			st = fmt.Sprintf("werr:nwrites=%d", w.calls) // contract: exactly one Write with the whole frame
+		case st == "werr:other" && w.mode == 'e':
+			st = "werr:io"
+		case st == "werr:other" && (w.mode == 's' || w.mode == 'z'):
+			st = "werr:short"
+		case st != "ok" && strings.HasPrefix(st, "werr:") && st != "werr:io" && st != "werr:short" && w.calls != 0:
+			st += "+wrote" // a rejected call must not write
+		}
 		stats = append(stats, st)
 	}
-	return stats, append([]byte(nil), w.Bytes()...), true
+	return stats, append([]byte(nil), w.buf.Bytes()...), true
 }
 
 func exec(op string) string {
@@ -307,8 +450,99 @@ func exec(op string) string {
 			return "bad-op"
 		}
 		return strings.Join(stats, ",") + " " + vh.Hex(buf) + " " + readAll(uint32(max), buf)
+	case f[0] == "rs" && len(f) == 4:
+		max, o1 := u(f[1], 32)
+		buf, o2 := vh.UnHex(f[3])
+		cuts := f[2]
+		ewd := strings.HasSuffix(cuts, "e")
+		cuts = strings.TrimSuffix(cuts, "e")
+		var sizes []int
+		for _, c := range strings.Split(cuts, ",") {
+			v, o := u(c, 24)
+			if !o {
+				return "bad-op"
+			}
+			sizes = append(sizes, int(v))
+		}
+		if !(o1 && o2) {
+			return "bad-op"
+		}
+		chunks := cutInto(sizes, append([]byte(nil), buf...))
+		return readLoop(uint32(max), &segReader{chunks: chunks, eofWithData: ewd}, len(buf), false)
+	case f[0] == "rc" && len(f) == 3:
+		max, o1 := u(f[1], 32)
+		buf, o2 := vh.UnHex(f[2])
+		if !(o1 && o2) {
+			return "bad-op"
+		}
+		return readLoop(uint32(max), bytes.NewReader(buf), len(buf), true)
+	case f[0] == "wf" && len(f) == 5:
+		max, o1 := u(f[1], 32)
+		allow, o2 := pb(f[2])
+		specs := strings.Split(f[4], ";")
+		if !(o1 && o2) || len(f[3]) != len(specs) {
+			return "bad-op"
+		}
+		stats, buf, ok := writeAllModes(allow, specs, f[3])
+		if !ok {
+			return "bad-op"
+		}
+		return strings.Join(stats, ",") + " " + vh.Hex(buf) + " " + readAll(uint32(max), buf)
+	case f[0] == "wb" && len(f) == 5:
+		allow, o1 := pb(f[1])
+		n, o2 := u(f[3], 26)
+		pl, o3 := u(f[4], 8)
+		if !(o1 && o2 && o3) {
+			return "bad-op"
+		}
+		return bigWrite(allow, f[2], int(n), int(pl))
 	}
 	return "bad-op"
+}
+
+// bigWrite calls one writer with a zero-filled variable part of n bytes (n entries for SETTINGS).
+func bigWrite(allow bool, kind string, n, pl int) string {
+	w := &sink{mode: 'g', noKeep: true}
+	fr := h2.NewFramer(w, nil)
+	fr.AllowIllegalWrites = allow
+	var err error
+	switch kind {
+	case "D":
+		var pad []byte
+		if pl != 0 {
+			pad = make([]byte, pl)
+		}
+		err = fr.WriteDataPadded(1, false, make([]byte, n), pad)
+	case "H":
+		err = fr.WriteHeaders(h2.HeadersFrameParam{StreamID: 1, BlockFragment: make([]byte, n), EndHeaders: true, PadLength: uint8(pl)})
+	case "U":
+		err = fr.WritePushPromise(h2.PushPromiseParam{StreamID: 1, PromiseID: 2, BlockFragment: make([]byte, n), EndHeaders: true, PadLength: uint8(pl)})
+	case "C":
+		err = fr.WriteContinuation(1, true, make([]byte, n))
+	case "G":
+		err = fr.WriteGoAway(1, 0, make([]byte, n))
+	case "X":
+		err = fr.WriteRawFrame(10, 0, 1, make([]byte, n))
+	case "S":
+		ss := make([]h2.Setting, n)
+		for i := range ss {
+			ss[i] = h2.Setting{ID: 1, Val: 0}
+		}
+		err = fr.WriteSettings(ss...)
+	default:
+		return "bad-op"
+	}
+	st := werr(err)
+	if st != "ok" {
+		if w.calls != 0 {
+			st += "+wrote"
+		}
+		return st + " 0 -"
+	}
+	if w.calls != 1 {
+		return fmt.Sprintf("werr:nwrites=%d 0 -", w.calls)
+	}
+	return fmt.Sprintf("ok %d %s", w.total, vh.Hex(w.keep9))
 }
 
 // ---------- generator ----------
@@ -483,9 +717,39 @@ func pickMax(r *vh.Rand, buf []byte) uint32 {
 	return 1<<24 - 1
 }
 
+func genCuts(r *vh.Rand) string {
+	var c string
+	switch r.Intn(6) {
+	case 0:
+		c = "1"
+	case 1:
+		c = fmt.Sprintf("%d", r.Range(2, 8)) // cuts inside the 9-byte header
+	case 2:
+		c = fmt.Sprintf("%d,0,%d", r.Range(1, 9), r.Range(1, 12)) // with empty reads
+	case 3:
+		c = "9" // exactly the header, then payload in 9s
+	case 4:
+		c = fmt.Sprintf("%d,%d,%d", r.Range(1, 20), r.Range(0, 3), r.Range(1, 5))
+	default:
+		c = fmt.Sprintf("0,%d", r.Range(1, 40))
+	}
+	if r.Chance(1, 3) {
+		c += "e"
+	}
+	return c
+}
+
 func gen(r *vh.Rand) string {
 	specs := genSpecs(r)
 	allow := r.Chance(1, 3)
+	if r.Chance(1, 12) {
+		// failing / short-writing sink
+		modes := make([]byte, len(specs))
+		for i := range modes {
+			modes[i] = "ggggszeg"[r.Intn(8)]
+		}
+		return fmt.Sprintf("wf %d %s %s %s", 1<<24-1, b01(allow), string(modes), strings.Join(specs, ";"))
+	}
 	if r.Chance(1, 2) {
 		_, buf, _ := writeAll(allow, specs)
 		return fmt.Sprintf("ws %d %s %s", pickMax(r, buf), b01(allow), strings.Join(specs, ";"))
@@ -548,7 +812,39 @@ func gen(r *vh.Rand) string {
 			buf[o], buf[o+1], buf[o+2] = 0, 0, 0
 		}
 	}
+	switch r.Intn(5) {
+	case 0, 1:
+		return fmt.Sprintf("rs %d %s %s", pickMax(r, buf), genCuts(r), vh.Hex(buf))
+	case 2:
+		return fmt.Sprintf("rc %d %s", pickMax(r, buf), vh.Hex(buf))
+	}
 	return fmt.Sprintf("rd %d %s", pickMax(r, buf), vh.Hex(buf))
 }
 
-func main() { vh.Main(gen, exec) }
+func main() {
+	vh.Pre = func(emit func(string), thorough bool) {
+		// every writer with a variable part, payload length 2^24-2 .. 2^24+1 (ErrFrameTooLarge boundary)
+		for _, k := range []struct {
+			kind string
+			fix  int // payload bytes besides the n variable ones
+			per  int
+			pl   int
+		}{{"D", 0, 1, 0}, {"D", 1 + 255, 1, 255}, {"H", 0, 1, 0}, {"H", 1 + 7, 1, 7}, {"U", 4, 1, 0}, {"U", 4 + 1 + 255, 1, 255},
+			{"C", 0, 1, 0}, {"G", 8, 1, 0}, {"X", 0, 1, 0}, {"S", 0, 6, 0}} {
+			for _, L := range []int{1<<24 - 2, 1<<24 - 1, 1 << 24, 1<<24 + 1} {
+				n := (L - k.fix) / k.per
+				if k.per == 6 && L != 1<<24-2 && L != 1<<24+1 {
+					continue // SETTINGS payloads are multiples of 6: 2^24-4 and 2^24+2
+				}
+				if k.per == 6 && L == 1<<24+1 {
+					n = (1<<24 + 2) / 6
+				}
+				if !thorough && !((k.kind == "D" && k.pl == 0 || k.kind == "C") && (L == 1<<24-1 || L == 1<<24)) {
+					continue // 16 MiB payloads are slow: the quick tier keeps DATA and CONTINUATION at the limit
+				}
+				emit(fmt.Sprintf("wb %d %s %d %d", 0, k.kind, n, k.pl))
+			}
+		}
+	}
+	vh.Main(gen, exec)
+}
